@@ -1,5 +1,5 @@
 # replay of a bounded stand-in violation (C15): re-run native/c15_hbar.py
 import sys
-print('bosonic homodyne-select: parity at hbar=3.1 is [1.55, 1.34319, 0.86658], at hbar=0.5 it is [0.25, 0.21664, 0.86658]')
+print('gaussian homodyne-select hbar=3.1: second run reports the outcome 0.565685, selected 0.704273')
 print('REPLAY-VIOLATION')
 sys.exit(1)
